@@ -16,6 +16,7 @@ package grandpa
 import (
 	stded "crypto/ed25519"
 	"fmt"
+	"os"
 	"strings"
 	"testing"
 
@@ -668,7 +669,7 @@ func TestC18CommitAcrossSetChange(t *testing.T) {
 				t.Fatalf("%s commit: %s\nhistory: %s\nerr=%v calls=%v", phase, msg, descr.String(), r.err, r.calls)
 			}
 			accepted := len(r.calls) > 0
-			if full && !accepted {
+			if full && !accepted && os.Getenv("VERIF_C18_NO_COMPLETENESS") == "" { // switch: sensitivity measurements of the one-directional oracle alone
 				t.Fatalf("%s: honest commit signed by every one of the %d current authorities (set id %d) for a descendant of the finalised head in a fresh round was rejected: %v\nhistory: %s",
 					phase, c.n, setID, r.err, descr.String())
 			}
@@ -716,6 +717,14 @@ func TestC18CommitAcrossSetChange(t *testing.T) {
 		fullAt := rapid.IntRange(0, m).Draw(t, "honestFullAt")
 		for i := 0; i <= m; i++ {
 			if i == fullAt {
+				// the honest full commit needs a round that has no finalised block yet
+				for {
+					has, _ := bs.HasFinalisedBlock(round, setN+1)
+					if !has {
+						break
+					}
+					round++
+				}
 				step("after", keysB, former, setN+1, round, true)
 				round++
 			}
